@@ -7,6 +7,7 @@
 import Proofs.Constraint
 import Proofs.ConstraintTyped
 import Proofs.ConstraintDerive
+import Proofs.ConstraintSound
 
 namespace Asn1.C14
 
@@ -94,6 +95,33 @@ theorem assignable_derived (parent child : STy) (tg : Tagging) (extra : Option C
       subst h
       simp [assignable, STy.isSuperTypeOf, superTagSet_append, hspec]
   | implicit c n => exact absurd rfl (htg c n)
+
+/-- **The assignment check cannot be used to bypass a constraint.**  Whatever value object the check of
+    `setComponentByPosition` lets into a field — non-strict (`isSuperTypeOf`: the value's type is, or is
+    derived from, the field's type) or strict (`isSameTypeWith`) — holds a value in the denotation of
+    the *field's* constraint, given that it is in the denotation of its own type's constraint (which
+    `scalar_ops_checked` guarantees for every value object).  Full statement: for every pair of
+    constraint sets.  Proved: for value types without a ConstraintsUnion on their value-map path —
+    the excluded region is exactly the recorded finding U1 (`P` counts as a supertype of `P | Q`,
+    pinned by tests/type/test_constraint.py DirectDerivationTestCase.testGoodVal); the witness below
+    shows the unrestricted statement is false of model and code alike. -/
+theorem assignment_check_sound_partial (strict : Bool) (fieldTy valueTy : STy)
+    (hw : fieldTy.spec.wf = true) (hu : valueTy.spec.noUnionMap = true)
+    (h : assignable strict fieldTy valueTy = true) (i : Option Nat) (v : CVal)
+    (hv : den valueTy.spec i v) : den fieldTy.spec i v := by
+  cases strict with
+  | true =>
+    simp only [assignable, if_true, STy.isSameTypeWith, Bool.and_eq_true, decide_eq_true_eq] at h
+    rw [h.2]; exact hv
+  | false =>
+    simp only [assignable, Bool.false_eq_true, if_false, STy.isSuperTypeOf, Bool.and_eq_true] at h
+    exact supertype_sound _ _ hw hu h.2 i v hv
+
+/-- finding U1 in the model: INTEGER (0..5) accepts a value object of type INTEGER (0..5 | 20..30) holding 25 -/
+theorem union_operand_counts_as_supertype :
+    isSuperTypeOf (valueRange 0 5) (union [valueRange 0 5, valueRange 20 30]) = true ∧
+    eval (union [valueRange 0 5, valueRange 20 30]) none (.atom (.int 25)) = true ∧
+    eval (valueRange 0 5) none (.atom (.int 25)) = false := by decide
 
 theorem mkScalar_checked {ty : STy} {a : Atom} {r : Scalar} (h : mkScalar ty a = .ok r) :
     eval r.ty.spec none (.atom r.value) = true := by
@@ -214,6 +242,8 @@ example : den tJ none (.atom (.int 3)) := (eval_iff_den _ _ _ (by decide)).mp (b
 example : ¬ den tJ none (.atom (.int 20)) := fun h => by
   have := (eval_iff_den tJ none (.atom (.int 20)) (by decide)).mpr h
   revert this; decide
+/-- premises of `assignment_check_sound_partial` are satisfiable: field INTEGER (0..10), value type derived from it -/
+example : tI.wf = true ∧ tJ.noUnionMap = true ∧ assignable false ⟨[], tI⟩ ⟨[], tJ⟩ = true := by decide
 /-- T6: the parent recognises the flattened derived set -/
 example : isSuperTypeOf tI tJ = true := subtype_recognised tI _ (by decide)
 example : isSuperTypeOf tJ tI = false := by decide
@@ -239,8 +269,10 @@ example : encodeGate tItem (.record [("id", .int 1)]) = .accept := by decide
 example : encodeGate tItem (.record [("id", .int 1), ("name", .bytes [120])]) = .reject := by decide
 example : encodeGate (intersection [valueSize 1 2]) (.coll [.int 0, .int 1, .int 2]) = .reject := by decide
 example : typed tItem (.record [("id", .int 1)]) = true ∧ tItem.wf = true := by decide
-/-- `==` ignores the class, the imposed-by test does not (fix a3e4c68) -/
-example : isSuperTypeOf (intersection [singleValue [.int 1, .int 5]]) (intersection [valueRange 1 5]) = true := by decide
+/-- `==` ignores the class; neither the imposed-by test (fix a3e4c68) nor the subtype test (fix 5ea3865) does:
+    INTEGER (1 | 5) is not a supertype of INTEGER (1..5) -/
+example : pyEq (intersection [singleValue [.int 1, .int 5]]) (intersection [valueRange 1 5]) = true := by decide
+example : isSuperTypeOf (intersection [singleValue [.int 1, .int 5]]) (intersection [valueRange 1 5]) = false := by decide
 example : imposedBy (singleValue [.int 1, .int 5]) (intersection [valueRange 1 5]) = false := by decide
 example : moveSizeSpec (exclusion [valueSize 3 4]) (intersection [valueSize 3 4])
     = intersection [exclusion [valueSize 3 4], intersection [valueSize 3 4]] := by decide
